@@ -32,7 +32,9 @@ def task_names(tier):
 def run_task(name, tier):
     T = Task(name)
     globals()['t_' + name](T, tier)
-    return T.result()
+    r = T.result()
+    r['units'] = r['units'] + getattr(T, 'extra_units', [])
+    return r
 
 
 def _ob(T, name, ok, reason='', kind='post', status=None):
@@ -122,6 +124,127 @@ def extract_model():
     return md
 
 
+MUTATORS = {'append', 'extend', 'insert', 'pop', 'remove', 'clear', 'update', 'setdefault', 'popitem', 'add', 'discard', 'sort', 'reverse', '__setitem__', '__delitem__'}
+
+
+def shared_state_inventory():
+    """every piece of module-level mutable state of the filter module, read off the AST.  Known: the name counter, the compiled-filter cache
+    (the lru_cache decorator of _filter_function), module globals written by _FnWrapper, containers that are never written after the module is
+    loaded, the pyparsing grammar (hs_*).  Anything else (another cache, a memo dict, a `global` statement, a mutable class attribute) is
+    state through which one filter could influence another and is listed as unrecognised."""
+    m = extract.module(FMOD)
+    tree = m.tree
+    unknown, known = [], []
+    pp_names = set()
+    for st in tree.body:
+        if isinstance(st, ast.ImportFrom) and st.module == 'pyparsing':
+            pp_names |= {a.asname or a.name for a in st.names}
+    pp_names |= {'DelimitedList'}
+
+    def written(name):
+        w = []
+        for n in ast.walk(tree):
+            if isinstance(n, ast.Subscript) and isinstance(n.value, ast.Name) and n.value.id == name and isinstance(n.ctx, (ast.Store, ast.Del)):
+                w.append('item store/delete at line %d' % n.lineno)
+            if isinstance(n, ast.Call) and isinstance(n.func, ast.Attribute) and isinstance(n.func.value, ast.Name) and n.func.value.id == name and n.func.attr in MUTATORS:
+                w.append('.%s() at line %d' % (n.func.attr, n.lineno))
+            if isinstance(n, ast.Global) and name in n.names:
+                w.append('global statement at line %d' % n.lineno)
+            if isinstance(n, ast.AugAssign) and isinstance(n.target, ast.Name) and n.target.id == name:
+                w.append('augmented assignment at line %d' % n.lineno)
+        return w
+
+    def walk_no_lambda(v):
+        yield v
+        for c in ast.iter_child_nodes(v):
+            if isinstance(c, ast.Lambda):
+                continue
+            for x in walk_no_lambda(c):
+                yield x
+
+    def grammar_expr(v):
+        for n in walk_no_lambda(v):
+            if isinstance(n, ast.Call):
+                f = n.func
+                while isinstance(f, ast.Attribute):
+                    f = f.value
+                if not isinstance(f, ast.Name):
+                    continue            # a method of a sub-expression, which is walked itself
+                if f.id in pp_names or f.id.startswith('hs_'):
+                    continue
+                return False
+        return True
+    for st in tree.body:
+        if isinstance(st, (ast.Import, ast.ImportFrom, ast.Expr, ast.If, ast.Try)):
+            if isinstance(st, ast.Expr) and isinstance(st.value, ast.Constant):
+                continue
+            if isinstance(st, (ast.Import, ast.ImportFrom)):
+                continue
+            if isinstance(st, ast.Expr) and isinstance(st.value, ast.BinOp) and isinstance(st.value.op, ast.LShift):
+                continue            # Forward <<= / << of the grammar
+            if isinstance(st, ast.Try) and all(isinstance(x, (ast.Import, ast.ImportFrom)) for x in st.body):
+                continue
+            unknown.append('module-level statement at line %d: %s' % (st.lineno, ast.unparse(st)[:60]))
+            continue
+        if isinstance(st, ast.AugAssign):
+            if isinstance(st.target, ast.Name) and st.target.id.startswith('hs_') and grammar_expr(st.value):
+                continue
+            unknown.append('module-level augmented assignment at line %d' % st.lineno)
+            continue
+        if isinstance(st, ast.Assign):
+            names = [t.id for t in st.targets if isinstance(t, ast.Name)]
+            if len(names) != len(st.targets):
+                unknown.append('module-level assignment to a non-name at line %d' % st.lineno)
+                continue
+            v = st.value
+            for name in names:
+                if name.startswith('hs_') and grammar_expr(v):
+                    continue
+                if isinstance(v, (ast.Constant, ast.Lambda)) or (isinstance(v, ast.Name)):
+                    continue
+                if isinstance(v, (ast.Dict, ast.List, ast.Set, ast.Tuple, ast.ListComp, ast.DictComp, ast.SetComp)):
+                    wr = written(name)
+                    if wr:
+                        unknown.append('%s is a container that is modified: %s' % (name, '; '.join(wr[:3])))
+                    else:
+                        known.append('%s: container, never written after load' % name)
+                    continue
+                src = ast.unparse(v)
+                if name == '_id_function' and src == 'itertools.count()':
+                    known.append('_id_function: the name counter')
+                    continue
+                if isinstance(v, ast.Call) and isinstance(v.func, ast.Name) and v.func.id in m.classes and not v.args and not v.keywords \
+                        and not any(isinstance(x, ast.Assign) and isinstance(x.value, (ast.Dict, ast.List, ast.Set)) for x in ast.walk(m.classes[v.func.id].node if hasattr(m.classes[v.func.id], 'node') else ast.Module(body=[], type_ignores=[]))):
+                    known.append('%s: instance of %s (no attributes written)' % (name, v.func.id))
+                    continue
+                unknown.append('%s = %s (line %d): module-level object of unknown mutability' % (name, src[:60], st.lineno))
+            continue
+        if isinstance(st, (ast.FunctionDef, ast.ClassDef)):
+            for d in st.decorator_list:
+                ds = ast.unparse(d)
+                if st.name == '_filter_function' and ds.startswith('lru_cache('):
+                    known.append('_filter_function: the compiled-filter cache')
+                    continue
+                unknown.append('decorator %s on %s' % (ds, st.name))
+            for n in ast.walk(st):
+                if isinstance(n, ast.Global):
+                    unknown.append('global statement in %s (line %d)' % (st.name, n.lineno))
+                if isinstance(n, ast.FunctionDef):
+                    for a in list(n.args.defaults) + [x for x in n.args.kw_defaults if x is not None]:
+                        if isinstance(a, (ast.Dict, ast.List, ast.Set)) or (isinstance(a, ast.Call) and getattr(a.func, 'id', '') in ('dict', 'list', 'set')):
+                            unknown.append('mutable default argument in %s (line %d)' % (n.name, n.lineno))
+                if isinstance(n, ast.Attribute) and isinstance(n.ctx, (ast.Store, ast.Del)) and isinstance(n.value, ast.Name) and n.value.id not in ('self',) \
+                        and (n.value.id in m.functions or n.value.id in m.classes):
+                    unknown.append('attribute of a module-level object written in %s (line %d)' % (st.name, n.lineno))
+            if isinstance(st, ast.ClassDef):
+                for x in st.body:
+                    if isinstance(x, ast.Assign) and isinstance(x.value, (ast.Dict, ast.List, ast.Set, ast.Call)):
+                        unknown.append('class attribute %s.%s holds an object shared by all instances' % (st.name, ast.unparse(x.targets[0])))
+            continue
+        unknown.append('module-level statement at line %d: %s' % (st.lineno, type(st).__name__))
+    return known, unknown
+
+
 def t_extract(T, tier):
     w = World()
     m = extract.module(FMOD)
@@ -132,6 +255,12 @@ def t_extract(T, tier):
     T.world = w
     md = extract_model()
     _ob(T, 'extract/shared_accesses_all_recognised', not md.other_shared, '; '.join(md.other_shared), kind='structure', status=None if not md.other_shared else 'unknown')
+    known, unknown = shared_state_inventory()
+    import hashlib
+    T.extra_units = [{'function': FMOD + ' (module-level statements: shared-state inventory)', 'file': 'hszinc/grid_filter.py', 'lines': 'all',
+                      'ast_sha': hashlib.sha256(ast.dump(m.tree).encode()).hexdigest()[:16]}]
+    _ob(T, 'extract/inventory/no_shared_mutable_state_beyond_the_counter_the_filter_cache_and_the_generated_names(%d known)' % min(len(known), 3), not unknown and len(known) >= 3,
+        '; '.join(unknown[:4]), kind='structure', status=None if (not unknown and len(known) >= 3) else 'unknown')
     _ob(T, 'extract/_FnWrapper.__init__/writes_only_its_own_global_name', md.writes_own_name_only, kind='structure')
     _ob(T, 'extract/_FnWrapper.__init__/exec_in_private_namespace', md.exec_private, kind='structure')
     _ob(T, 'extract/_FnWrapper.get/reads_only_its_own_global_name', md.get_reads_own_name, kind='structure')
